@@ -31,6 +31,9 @@ type TSModel interface {
 type TS struct {
 	M      TSModel
 	memo   map[tsKey][]TSConfig
+	// exitsOf: for each summary, the (configuration, return instruction) pairs, used to
+	// correlate a callee's constant boolean result with the branch taken on it by the caller
+	exitsOf map[tsKey][]tsExit
 	active map[tsKey]bool
 	// Reached: every (instruction, configuration-before) pair the analysis reached.
 	Reached map[ssa.Instruction]map[TSConfig]bool
@@ -45,9 +48,28 @@ type tsKey struct {
 	c  TSConfig
 }
 
+type tsExit struct {
+	c   TSConfig
+	ret *ssa.Return
+}
+
+// pending binds the constant boolean value a just-returned callee produced for a call
+// result, until the end of the block in which the call occurs.
+type pending struct {
+	val ssa.Value
+	idx int // result index (for tuples), 0 otherwise
+	b   bool
+	has bool
+}
+
+type tsState struct {
+	c TSConfig
+	p pending
+}
+
 // NewTS creates an analysis.
 func NewTS(m TSModel) *TS {
-	return &TS{M: m, memo: map[tsKey][]TSConfig{}, active: map[tsKey]bool{},
+	return &TS{M: m, memo: map[tsKey][]TSConfig{}, exitsOf: map[tsKey][]tsExit{}, active: map[tsKey]bool{},
 		Reached: map[ssa.Instruction]map[TSConfig]bool{}, Exits: map[*ssa.Return]map[TSConfig]bool{}}
 }
 
@@ -72,14 +94,17 @@ func (t *TS) Exec(fn *ssa.Function, entry TSConfig) []TSConfig {
 	work := []item{{fn.Blocks[0], entry}}
 	seen[work[0]] = true
 	exits := map[TSConfig]bool{}
+	var exitList []tsExit
+	seenExit := map[tsExit]bool{}
 	for len(work) > 0 {
 		it := work[len(work)-1]
 		work = work[:len(work)-1]
-		cur := []TSConfig{it.c}
+		cur := []tsState{{c: it.c}}
 		terminated := false
 		for _, in := range it.b.Instrs {
-			var next []TSConfig
-			for _, c := range cur {
+			var next []tsState
+			for _, st := range cur {
+				c := st.c
 				t.Steps++
 				if t.Reached[in] == nil {
 					t.Reached[in] = map[TSConfig]bool{}
@@ -92,6 +117,10 @@ func (t *TS) Exec(fn *ssa.Function, entry TSConfig) []TSConfig {
 					}
 					t.Exits[x][c] = true
 					exits[c] = true
+					if e := (tsExit{c, x}); !seenExit[e] {
+						seenExit[e] = true
+						exitList = append(exitList, e)
+					}
 					terminated = true
 					continue
 				case *ssa.Panic:
@@ -99,13 +128,38 @@ func (t *TS) Exec(fn *ssa.Function, entry TSConfig) []TSConfig {
 					continue
 				case *ssa.Call:
 					if g := StaticCallee(x.Common()); g != nil && t.M.Descend(g) {
-						next = append(next, t.Exec(g, c)...)
+						t.Exec(g, c)
+						for _, e := range t.exitsOf[tsKey{g, c}] {
+							ns := tsState{c: e.c, p: st.p}
+							// constant boolean results
+							if e.ret != nil {
+								res := ReturnResults(e.ret)
+								for i, rv := range res {
+									if bv, isC := ConstBool(rv); isC {
+										ns.p = pending{val: x, idx: i, b: bv, has: true}
+										if len(res) == 1 {
+											break
+										}
+										// for tuples keep the last bool (the conventional ok flag)
+									}
+								}
+							}
+							next = append(next, ns)
+						}
+						if len(t.exitsOf[tsKey{g, c}]) == 0 {
+							// recursion in progress or no exits recorded: fall back to configs
+							for _, ec := range t.memo[tsKey{g, c}] {
+								next = append(next, tsState{c: ec, p: st.p})
+							}
+						}
 						continue
 					}
 				}
-				next = append(next, t.M.Step(in, c)...)
+				for _, nc := range t.M.Step(in, c) {
+					next = append(next, tsState{c: nc, p: st.p})
+				}
 			}
-			cur = dedupCfg(next)
+			cur = dedupState(next)
 			if terminated {
 				break
 			}
@@ -114,11 +168,18 @@ func (t *TS) Exec(fn *ssa.Function, entry TSConfig) []TSConfig {
 			continue
 		}
 		for k, s := range it.b.Succs {
-			for _, c := range cur {
-				nc := c
+			for _, st := range cur {
+				nc := st.c
 				if len(it.b.Succs) == 2 {
+					if st.p.has {
+						if v, pol, ok := CondTruth(it.b, k); ok && pendingMatches(st.p, v) {
+							if st.p.b != pol {
+								continue // the callee returned the other constant
+							}
+						}
+					}
 					var ok bool
-					nc, ok = t.M.Refine(it.b, k, c)
+					nc, ok = t.M.Refine(it.b, k, nc)
 					if !ok {
 						continue
 					}
@@ -131,6 +192,7 @@ func (t *TS) Exec(fn *ssa.Function, entry TSConfig) []TSConfig {
 			}
 		}
 	}
+	t.exitsOf[k] = exitList
 	delete(t.active, k)
 	out := make([]TSConfig, 0, len(exits))
 	for c := range exits {
@@ -168,3 +230,28 @@ func (t *TS) ConfigsAt(in ssa.Instruction) []TSConfig {
 
 // FunctionsAnalysed returns the number of (function, entry) summaries computed.
 func (t *TS) FunctionsAnalysed() int { return len(t.memo) }
+
+func pendingMatches(p pending, v ssa.Value) bool {
+	if v == p.val && p.idx == 0 {
+		return true
+	}
+	if e, ok := v.(*ssa.Extract); ok && e.Tuple == p.val && e.Index == p.idx {
+		return true
+	}
+	return false
+}
+
+func dedupState(cs []tsState) []tsState {
+	if len(cs) < 2 {
+		return cs
+	}
+	seen := map[tsState]bool{}
+	var out []tsState
+	for _, c := range cs {
+		if !seen[c] {
+			seen[c] = true
+			out = append(out, c)
+		}
+	}
+	return out
+}
